@@ -45,11 +45,22 @@ def accepted_modes(ctx, oc: Class):
                     t, neg = t.operand, True
                 from ..astutil import literal_seq
                 lit = literal_seq(init, t.comparators[0]) if isinstance(t, ast.Compare) and len(t.ops) == 1 else None
-                if isinstance(t, ast.Compare) and len(t.ops) == 1 and unparse(t.left) == "mode_weight" and lit is not None:
+                from ..astutil import deep_inline, conjuncts
+
+                def is_mode(e):
+                    # the parameter itself, or a local that carries it (`"custom" if weights is not None else mode_weight`)
+                    return any(isinstance(x, ast.Name) and x.id == "mode_weight" for x in ast.walk(deep_inline(init, e)))
+                if isinstance(t, ast.Compare) and len(t.ops) == 1 and is_mode(t.left) and lit is not None:
                     isin = isinstance(t.ops[0], ast.In)
                     if (neg and isin) or (not neg and isinstance(t.ops[0], ast.NotIn)):
                         if any(isinstance(x, ast.Raise) for x in n.body):
                             return [const(x) for x in lit.elts], init
+                # `if m != 'a' and m != 'b': raise`
+                if any(isinstance(x, ast.Raise) for x in n.body):
+                    cj = conjuncts(n.test, True)
+                    if cj and len(cj) >= 2 and all(pol is False and isinstance(nd, ast.Compare) and len(nd.ops) == 1 and is_mode(nd.left)
+                                                    and isinstance(const(nd.comparators[0]), str) for _, pol, nd in cj):
+                        return [const(nd.comparators[0]) for _, _, nd in cj], init
     return None, None
 
 
@@ -429,8 +440,12 @@ def _collect_bil(m: Func, idx, weighted=True):
         if k not in ("tmp_values", "val", "value"):
             defs.pop(k, None)
     total = None
+    # the list of per-schedule terms: whichever list is summed with np.sum(...)
+    summed = {unparse(c_.args[0]) for c_ in ast.walk(m.node) if isinstance(c_, ast.Call) and (dotted(c_.func) or "").split(".")[-1] == "sum"
+              and len(c_.args) == 1 and isinstance(c_.args[0], ast.Name)}
     apps = [n for s_ in seq for n in ast.walk(s_) if isinstance(n, ast.Call) and isinstance(n.func, ast.Attribute) and n.func.attr == "append"
-            and unparse(n.func.value) == "tmp_values" and len(n.args) == 1]
+            and unparse(n.func.value) in summed and len(n.args) == 1
+            and any(isinstance(x, ast.Call) and (dotted(x.func) or "").startswith("multiply_veca_vecb") for x in ast.walk(_resolve_term(n.args[0], defs)))]
     if any(isinstance(s_, ast.If) for s_ in seq if any(a is x for a in apps for x in ast.walk(s_))):
         apps = []       # an append under a condition that is not the weight test
     for a in apps:
@@ -449,6 +464,14 @@ def _collect_bil(m: Func, idx, weighted=True):
         else:
             outer = 1
     return total, outer
+
+
+def _resolve_term(e, defs, depth=4):
+    """e with the loop body's once-bound locals written out (to see whether it is built from the bilinear helpers)"""
+    from ..symsum import subst
+    for _ in range(depth):
+        e = subst(e, defs)
+    return e
 
 
 def _bil_expr(e, defs, idx):
